@@ -221,6 +221,25 @@ func runC11(p *Program, e *Engine, r *Result, tier string) {
 				}
 			}
 		}
+		// the returned event's Name as a value: what is stored into the Name field of the event cell that is returned
+		retNameVal := ""
+		for _, b := range trFn.Blocks {
+			if r, ok := b.Instrs[len(b.Instrs)-1].(*ssa.Return); ok && len(r.Results) >= 1 {
+				if rl, ok := r.Results[0].(*ssa.UnOp); ok && rl.Op == token.MUL {
+					if eal, ok := rl.X.(*ssa.Alloc); ok {
+						if est, ok := deref(eal.Type()).Underlying().(*types.Struct); ok {
+							for i := 0; i < est.NumFields(); i++ {
+								if est.Field(i).Name() == "Name" {
+									if fs := localFieldStore(eal, i); fs != nil {
+										retNameVal = stripIDs(w.Visits[0].Ctx.root().path(fs.Val))
+									}
+								}
+							}
+						}
+					}
+				}
+			}
+		}
 		if ld, ok := st.Val.(*ssa.UnOp); ok && ld.Op == token.MUL {
 			if al, ok := ld.X.(*ssa.Alloc); ok {
 				if refs := al.Referrers(); refs != nil {
@@ -238,7 +257,7 @@ func runC11(p *Program, e *Engine, r *Result, tier string) {
 								vp := stripIDs(v.Ctx.path(s2.Val))
 								desc = append(desc, fieldName(fa.X.Type(), fa.Field)+"<-"+tail(vp, 60))
 								if isString(s2.Val.Type()) {
-									if vp == retName {
+									if vp == retName || (retNameVal != "" && vp == retNameVal) {
 										nmOK = true
 									}
 								} else if strings.HasSuffix(vp, "cookie") && strings.HasPrefix(vp, "p:") {
